@@ -141,7 +141,7 @@ impl<B: TextWriter> FiniteParser<B> {
                         self.push_significand_digit(ascii[0]);
                     }
                     // Mark the significand as negative
-                    b'-' if !self.has_sign && !self.has_digits => {
+                    b'-' if !self.has_sign && !self.has_digits && !self.has_decimal => {
                         self.significand_is_negative();
                     }
                     // Mark the decimal point in the significand
@@ -158,7 +158,7 @@ impl<B: TextWriter> FiniteParser<B> {
                         break;
                     }
                     // Uncommon: mark the significand as positive
-                    b'+' if !self.has_sign && !self.has_digits => {
+                    b'+' if !self.has_sign && !self.has_digits && !self.has_decimal => {
                         self.significand_is_positive();
                     }
                     // Any other character is an error
